@@ -176,6 +176,40 @@ type V2SamplerConfig struct {
 	Samplers     map[string]*V2SamplerChoice `json:"samplers" yaml:"Samplers,omitempty" validate:"required"`
 }
 
+// check reports what the metadata-driven validation cannot see because it only shows in
+// the decoded rules: a Samplers entry that configures no sampler type, or a rule whose
+// Sampler names no sampler type. Both used to end in os.Exit(1) when the first trace of
+// the environment was sampled.
+func (c *V2SamplerConfig) check() error {
+	if c == nil {
+		return nil
+	}
+	for name, choice := range c.Samplers {
+		if choice == nil {
+			return fmt.Errorf("sampler %s is empty", name)
+		}
+		s, _ := choice.Sampler()
+		if s == nil {
+			return fmt.Errorf("sampler %s does not configure a sampler type", name)
+		}
+		rb, ok := s.(*RulesBasedSamplerConfig)
+		if !ok {
+			continue
+		}
+		for i, rule := range rb.Rules {
+			if rule == nil {
+				continue
+			}
+			if ds := rule.Sampler; ds != nil && ds.DynamicSampler == nil && ds.EMADynamicSampler == nil &&
+				ds.EMAThroughputSampler == nil && ds.WindowedThroughputSampler == nil &&
+				ds.TotalThroughputSampler == nil && ds.DeterministicSampler == nil {
+				return fmt.Errorf("sampler %s: rule %d (%s): Sampler does not configure a sampler type", name, i, rule.Name)
+			}
+		}
+	}
+	return nil
+}
+
 type GetSamplingFielder interface {
 	GetSamplingFields() []string
 }
